@@ -47,6 +47,8 @@ def team_layout(kind, n, cost=(1.0, 2.0, 3.0)):
                 ],
             }
         ]
+    if kind == "POOL3":
+        return [{"name": "TM0", "targets": allt, "workers": [{"name": "W%d" % i, "skills": dict(full), "cost": cost[i]} for i in range(3)]}]
     if kind == "DED":
         return [
             {
@@ -104,11 +106,12 @@ def with_teams(flow, kind):
 
 
 def worker_names(spec):
-    return [w["name"] for tm in spec.get("teams", []) for w in tm.get("workers", [])]
+    """IDs of the workers (equal to their names unless a spec gives separate ids)"""
+    return [(w.get("id") or w["name"]) for tm in spec.get("teams", []) for w in tm.get("workers", [])]
 
 
 def facility_names(spec):
-    return [f["name"] for wp in spec.get("workplaces", []) for f in wp.get("facilities", [])]
+    return [(f.get("id") or f["name"]) for wp in spec.get("workplaces", []) for f in wp.get("facilities", [])]
 
 
 def seq_bound(spec):
